@@ -31,6 +31,7 @@ import struct
 import sys
 import tempfile
 import threading
+import time
 import traceback
 
 from vlib import hlib
@@ -494,6 +495,15 @@ class Run:
             _tls.w = None
             self.finish(w)
 
+    def stuck(self, why: str) -> None:
+        """The run did not come to an end the harness understands: say so IN THE RECORD (TLC judges it,
+        clause run.incomplete, together with everything that was observed up to here)."""
+        try:
+            ls = self.ls()
+        except Exception:       # noqa: BLE001
+            ls = {'dir': False, 'd': {w: 'absent' for w in self.writers}, 'tmp': [], 'other': []}
+        self.emit({'w': '', 'op': 'stuck', 'res': why, 'n': 0, 'i': 0, 'ls': ls})
+
     def execute(self) -> None:
         global RUN
         RUN = self
@@ -505,19 +515,36 @@ class Run:
                 for t in ths:
                     t.start()
                 with self.cv:
-                    ok = self.cv.wait_for(lambda: len(self.finished | self.parked) == len(self.writers), timeout=30)
+                    ok = self.cv.wait_for(lambda: len(self.finished | self.parked) == len(self.writers), timeout=25)
                 if not ok:
-                    raise RuntimeError(f'schedule stuck: pending={self.pending} ptr={self.ptr} active={self.active} '
-                                       f'finished={self.finished} parked={self.parked} '
-                                       f'path={[(e["w"], e["op"], e["res"]) for e in self.path]}')
+                    RUN = None
+                    self.stuck(f'writers neither finished nor killed: pending={sorted(self.pending.items())} '
+                               f'active={self.active} finished={sorted(self.finished)}')
         finally:
             RUN = None
 
     def run(self, fork: bool) -> list:
-        """Execute; returns the event list (with the final 'post' observation)."""
+        """Execute; returns the event list (with the final 'post' observation).  Runs with a kill or with
+        more than one writer (threads) are executed in a forked child, so that nothing of them can stay
+        behind in this process; whatever happens to the child becomes part of the record."""
         self.setup()
-        if not fork:
-            self.execute()
+        if not (fork or not self.single):
+            class _Alarm(Exception):
+                pass
+
+            def on_alarm(signum, frame):
+                raise _Alarm()
+            old = signal.signal(signal.SIGALRM, on_alarm)
+            signal.alarm(40)
+            try:
+                self.execute()
+            except _Alarm:
+                global RUN
+                RUN = None
+                self.stuck('the writer did not return within 40 s')
+            finally:
+                signal.alarm(0)
+                signal.signal(signal.SIGALRM, old)
             evs = list(self.events)
         else:
             logp = os.path.join(self.base, 'log.ndjson')
@@ -525,27 +552,56 @@ class Run:
             pid = os.fork()
             if pid == 0:
                 try:
-                    signal.alarm(60)
                     self.logfd = fd
                     self.forked = True
+
+                    def on_alarm(signum, frame):
+                        self.stuck('watchdog: the run did not end within 45 s')
+                        os._exit(0)
+                    signal.signal(signal.SIGALRM, on_alarm)
+                    signal.alarm(45)
                     self.execute()
                     os._exit(0)
                 except BaseException:       # noqa: BLE001
-                    traceback.print_exc()
-                    os._exit(3)
+                    try:
+                        self.stuck('harness child: ' + traceback.format_exc()[-600:])
+                    finally:
+                        os._exit(0)
             os.close(fd)
-            _, status = os.waitpid(pid, 0)
-            if os.WIFSIGNALED(status):
+            status = None
+            t_start = time.monotonic()
+            while time.monotonic() - t_start < 70:
+                got, st = os.waitpid(pid, os.WNOHANG)
+                if got:
+                    status = st
+                    break
+                time.sleep(0.002 if time.monotonic() - t_start < 2 else 0.1)
+            why = ''
+            if status is None:
+                os.kill(pid, signal.SIGKILL)
+                os.waitpid(pid, 0)
+                why = 'the child process had to be killed after 70 s'
+            elif os.WIFSIGNALED(status):
                 if os.WTERMSIG(status) != signal.SIGKILL:
-                    raise RuntimeError(f'child died with signal {os.WTERMSIG(status)}')
+                    why = f'the child process died with signal {os.WTERMSIG(status)}'
             elif os.WEXITSTATUS(status) != 0:
-                raise RuntimeError(f'child failed with status {os.WEXITSTATUS(status)}')
+                why = f'the child process left with status {os.WEXITSTATUS(status)}'
             with _REAL['open'](logp, encoding='utf-8') as f:
-                evs = [json.loads(ln) for ln in f if ln.strip()]
+                evs = []
+                for ln in f:
+                    try:
+                        evs.append(json.loads(ln))
+                    except ValueError:
+                        pass                    # a line cut short by the kill
             for e in evs:
                 if e['op'] == '_id':
                     self.ids[e['name']] = e['id']
             evs = [e for e in evs if e['op'] != '_id']
+            planned_kill = any(e['op'] == 'crash' for e in evs)
+            if status is not None and os.WIFSIGNALED(status) and os.WTERMSIG(status) == signal.SIGKILL and not planned_kill:
+                why = 'the child process was killed although no kill was logged'
+            if why:
+                evs.append({'w': '', 'op': 'stuck', 'res': why, 'n': 0, 'i': 0, 'ls': self.ls()})
         evs.append({'w': '', 'op': 'post', 'res': 'ok', 'n': 0, 'i': 0, 'ls': self.ls()})
         return evs
 
